@@ -108,6 +108,7 @@ type rq struct {
 	Panic    string
 	Done     bool
 	Absent   bool // vstore only: no live entry under this request's storage key when it started
+	Hung     bool // the request never completed (deadlock guard fired), or the rig was already abandoned
 }
 
 func (q *rq) mkey() string { return q.Method + " " + q.Key }
@@ -220,6 +221,8 @@ type rig struct {
 	fctx       *fasthttp.RequestCtx // the one reused context (conf.ReuseCtx)
 	extra      map[string]any       // scenario / schedule, merged into every violation detail
 	concurrent bool                 // requests overlapped at some point in this rig's life
+	inline     bool                 // requests run on the caller's goroutine (parallel workers of cache.race)
+	dead       bool                 // a request never completed: the rig is abandoned, nothing more is sent
 }
 
 func (g *rig) now() time.Duration {
@@ -453,8 +456,89 @@ func (g *rig) panicClass(q *rq) string {
 	return "sequential|expired-entry|" + g.cf.backend()
 }
 
-// do runs the request on the calling goroutine; a panic is captured in q.Panic.
+// do runs one request under the deadlock guard. Scheduler workers and the parallel workers of
+// cache.race are their own guard (sched.Outcome.Deadlock, the burst's stop deadline): there the
+// request runs on the caller's goroutine. Everywhere else (timed histories, seeding, bound
+// probes, fills, corpus) the request runs on its own goroutine and the caller waits for it with a
+// virtual-time limit: under the fake clock a timer only fires when every goroutine is blocked, and
+// nothing on the request path waits on a timer except the origin's scripted sleep, so a request
+// that has not completed when the timer fires never will. The rig is then abandoned (the goroutine
+// is leaked, nothing more is sent through it) and the violation is reported; the process goes on.
 func (g *rig) do(q *rq) {
+	g.mu.Lock()
+	dead := g.dead
+	g.mu.Unlock()
+	if dead {
+		q.Hung = true
+		return
+	}
+	if g.yield != nil || g.inline {
+		g.doInline(q)
+		return
+	}
+	done := make(chan struct{})
+	go func() {
+		g.doInline(q)
+		close(done)
+	}()
+	wait := time.Duration(q.Sleep)*time.Second + 50*time.Millisecond
+	if g.realtime {
+		wait = 3 * time.Second
+	}
+	t := time.NewTimer(wait)
+	select {
+	case <-done:
+		t.Stop()
+		return
+	case <-t.C:
+	}
+	g.mu.Lock()
+	g.dead = true
+	if len(g.trace) < 80 {
+		g.trace = append(g.trace, q.spec()+" NEVER COMPLETES")
+	}
+	panicked := false
+	for _, r := range g.reqs {
+		if r != q && r.Panic != "" {
+			panicked = true
+		}
+	}
+	g.mu.Unlock()
+	q.Hung = true
+	g.e.Eval(1)
+	if panicked {
+		g.viol("deadlock|mutex-held-after-panic", "after the panic a further request never completes (the middleware's mutex is still locked)", map[string]any{"request": q.spec()})
+		return
+	}
+	g.viol("deadlock|request-never-completes|"+g.hangClass(""), "a request never completes: every goroutine is blocked and no timer is pending on the request path (the middleware's mutex is held by nobody who will release it)", map[string]any{"request": q.spec()})
+}
+
+// hangClass names the situation of a request that never completed, from recorded facts: the
+// family (sequential history, or after / during concurrent requests) and, when it applies, the
+// one event known to matter: an earlier origin response that was larger than MaxBytes.
+func (g *rig) hangClass(family string) string {
+	class := "sequential"
+	if family != "" {
+		class = family
+	} else if g.realtime {
+		class = "parallel-burst"
+	} else if g.concurrent {
+		class = "after-concurrent-requests"
+	}
+	g.mu.Lock()
+	defer g.mu.Unlock()
+	if g.cf.MaxBytes > 0 {
+		for _, x := range g.execs {
+			if len(x.Body) > g.cf.MaxBytes {
+				return class + "|after-response-larger-than-maxbytes"
+			}
+		}
+	}
+	return class
+}
+
+// doInline runs the request on the calling goroutine; a panic is captured in q.Panic.
+func (g *rig) doInline(q *rq) {
 	if g.vs != nil {
 		_, ok := g.vs.Peek(g.skey(q))
 		q.Absent = !ok
